@@ -54,6 +54,31 @@ pub assume_specification<T, U> [core::panicking::assert_failed] (_0: core::panic
 pub struct Timestamp { nanos: i128 }
 impl Timestamp {
     pub uninterp spec fn nanos(&self) -> int;
+
+    // jiff accessors that COARSEN an instant (whole seconds / milliseconds / microseconds, truncated toward zero).
+    // Not used by the pinned tree; present so that an edit comparing times at a coarser grain than the index stores
+    // is decided by the contract (C18: a report is Unchanged iff NO listed difference) instead of leaving the unit
+    // unposable.
+    #[verifier::external_body]
+    pub fn as_second(self) -> (r: i64)
+        ensures r as int == (if self.nanos() >= 0 { self.nanos() / 1_000_000_000 } else { -((-self.nanos()) / 1_000_000_000) }),
+    { unimplemented!() }
+    #[verifier::external_body]
+    pub fn as_millisecond(self) -> (r: i64)
+        ensures r as int == (if self.nanos() >= 0 { self.nanos() / 1_000_000 } else { -((-self.nanos()) / 1_000_000) }),
+    { unimplemented!() }
+    #[verifier::external_body]
+    pub fn as_microsecond(self) -> (r: i64)
+        ensures r as int == (if self.nanos() >= 0 { self.nanos() / 1_000 } else { -((-self.nanos()) / 1_000) }),
+    { unimplemented!() }
+    #[verifier::external_body]
+    pub fn as_nanosecond(self) -> (r: i128)
+        ensures r as int == self.nanos(),
+    { unimplemented!() }
+    #[verifier::external_body]
+    pub fn subsec_nanosecond(self) -> (r: i32)
+        ensures r as int == (if self.nanos() >= 0 { self.nanos() % 1_000_000_000 } else { -((-self.nanos()) % 1_000_000_000) }),
+    { unimplemented!() }
 }
 impl PartialEqSpecImpl for Timestamp {
     open spec fn obeys_eq_spec() -> bool { true }
